@@ -163,7 +163,8 @@ def get_component_files(suffix: Optional[str] = None) -> List[ComponentFileEntry
     # Because for dirs in `COMPONENTS.dirs`, we assume they will be nested under `BASE_DIR`,
     # and that `BASE_DIR` is the current working dir (CWD). So the path relatively to `BASE_DIR`
     # is ALSO the python import path.
-    for filepath in component_filepaths:
+    # NOTE: When the configured directories are nested in each other, the same file is found more than once
+    for filepath in dict.fromkeys(component_filepaths):
         module_path = _filepath_to_python_module(filepath, project_root, None)
         # Ignore files starting with dot `.` or files in dirs that start with dot.
         #
